@@ -30,9 +30,30 @@ pub fn convert(f: &f::Layout) -> Result<s::Layout, String> {
     adjust_repeats(&mut res, &from_table, &alias_mappings, fm)?;
   }
   
+  // The mapper cannot handle a key listed twice in one trigger or output
+  for sm in &res {
+    if let Some(k) = find_duplicate_key(&sm.from) {
+      return Err(format!("Key {} appears more than once in `from` of the mapping from {:?} to {:?}", k, sm.from, sm.to));
+    }
+    if let Some(k) = find_duplicate_key(&sm.to) {
+      return Err(format!("Key {} appears more than once in `to` of the mapping from {:?} to {:?}", k, sm.from, sm.to));
+    }
+  }
+  
   Ok(s::Layout {
     mappings: res
   })
+}
+
+fn find_duplicate_key(keys: &Vec<KeyCode>) -> Option<KeyCode> {
+  for i in 0 .. keys.len() {
+    for j in i+1 .. keys.len() {
+      if keys[i] == keys[j] {
+        return Some(keys[i]);
+      }
+    }
+  }
+  None
 }
 
 fn adjust_repeats<'a>(res: &mut Vec<s::Mapping>, from_table: &HashMap<FromSet, Vec<usize>>, alias_mappings: &'a HashMap<String, Vec<&'a f::AliasMapping>>, fm: &f::Mapping) -> Result<(), String> {
